@@ -52,10 +52,22 @@ Section Group.
   Notation search := (search crc msg deser end_height).
 
   (** ** writing: the group always holds exactly the accepted frames, rotated files hold whole frames *)
-  Definition accepted (o : wal_op) : list bytes :=
+  Definition accepted (g : group) (o : wal_op) : list bytes :=
     match o with
     | WWrite p | WWriteSync p => match encode crc p with Some _ => [p] | None => [] end
+    | WStart p0 =>
+      match g_head g ++ g_buf g with
+      | [] => match encode crc p0 with Some _ => [p0] | None => [] end
+      | _ => []
+      end
     | _ => []
+    end.
+
+  (** the payloads accepted along a run (the restart marker is written only on an empty head) *)
+  Fixpoint run_written (g : group) (ops : list wal_op) : list bytes :=
+    match ops with
+    | [] => []
+    | o :: r => accepted g o ++ run_written (fst (wal_step g o)) r
     end.
 
   Definition inv (g : group) (ps : list bytes) : Prop :=
@@ -99,9 +111,9 @@ Section Group.
     - rewrite concat_app. cbn. rewrite !app_nil_r. exact C.
   Qed.
 
-  Lemma wal_step_inv g ps o : inv g ps -> inv (fst (wal_step g o)) (ps ++ accepted o).
+  Lemma wal_step_inv g ps o : inv g ps -> inv (fst (wal_step g o)) (ps ++ accepted g o).
   Proof.
-    intro I. destruct o as [p|p| | |]; cbn [Model.wal_step accepted]; unfold Model.wal_write, Model.wal_write_sync.
+    intro I. destruct o as [p|p| | | |p0]; cbn [Model.wal_step accepted]; unfold Model.wal_start, Model.wal_write, Model.wal_write_sync.
     - destruct (encode crc p) as [fr|] eqn:E; cbn [fst]; [|rewrite app_nil_r; exact I].
       apply encode_some in E. subst fr. apply group_write_inv. exact I.
     - destruct (encode crc p) as [fr|] eqn:E; cbn [fst]; [|rewrite app_nil_r; exact I].
@@ -110,11 +122,15 @@ Section Group.
       destruct (g_limit g =? 0)%Z; auto. destruct (g_limit g <=? _)%Z; auto using group_rotate_inv.
     - cbn [fst]. rewrite app_nil_r. apply group_flush_inv. exact I.
     - cbn [fst]. rewrite app_nil_r. apply group_rotate_inv. exact I.
+    - cbn [group_flush g_head]. apply group_flush_inv in I.
+      destruct (g_head g ++ g_buf g) eqn:H; [|cbn [fst]; rewrite app_nil_r; exact I].
+      destruct (encode crc p0) as [fr|] eqn:E; cbn [fst]; [|rewrite app_nil_r; exact I].
+      apply encode_some in E. subst fr. apply group_flush_inv, group_write_inv. exact I.
   Qed.
 
-  Lemma wal_run_inv ops : forall g ps, inv g ps -> inv (wal_run g ops) (ps ++ flat_map accepted ops).
+  Lemma wal_run_inv ops : forall g ps, inv g ps -> inv (wal_run g ops) (ps ++ run_written g ops).
   Proof.
-    induction ops as [|o ops IH]; intros g ps I; cbn [Model.wal_run fold_left flat_map].
+    induction ops as [|o ops IH]; intros g ps I; cbn [Model.wal_run fold_left run_written].
     - rewrite app_nil_r. exact I.
     - rewrite app_assoc. apply IH. apply wal_step_inv. exact I.
   Qed.
@@ -225,67 +241,112 @@ Section Group.
       + apply IH; auto.
   Qed.
 
-  (** files younger than the one holding the marker: every marker there is larger, the scan moves on *)
-  Lemma scan_abs_later h : forall ps last, (forall x, In x (marks ps) -> (h < x)%Z) ->
-    (last = (-1)%Z \/ (h < last)%Z) ->
-    exists l, scan_abs h ps last = ScNext l /\ (l = (-1)%Z \/ (h < l)%Z).
+  (** files younger than the one holding the marker: every positive marker there is larger
+      (non-positive ones — the restart marker 0 — never stop the scan), so the scan moves on *)
+  Lemma scan_abs_later h : (0 < h)%Z -> forall ps last,
+    (forall x, In x (marks ps) -> (x <= 0 \/ h < x)%Z) ->
+    (last <= 0 \/ h < last)%Z ->
+    exists l, scan_abs h ps last = ScNext l /\ (l <= 0 \/ h < l)%Z.
   Proof.
-    induction ps as [|p ps IH]; intros last A I; cbn [scan_abs].
+    intro Hh. induction ps as [|p ps IH]; intros last A I; cbn [scan_abs].
     - assert (E : ((0 <? last) && (last <? h))%Z = false).
-      { destruct I as [->|I]; [reflexivity|]. apply andb_false_iff. right. apply Z.ltb_ge. lia. }
+      { destruct I as [I|I]; apply andb_false_iff; [left|right]; apply Z.ltb_ge; lia. }
       rewrite E. eauto.
     - unfold marks in A. cbn [flat_map] in A. fold (marks ps) in A. destruct (mark p) as [x|].
-      + assert (h < x)%Z by (apply A; apply in_or_app; left; left; reflexivity).
+      + assert (x <= 0 \/ h < x)%Z by (apply A; apply in_or_app; left; left; reflexivity).
         destruct (Z.eqb_spec x h); [lia|]. apply IH; auto. intros y Hy. apply A. apply in_or_app. auto.
       + apply IH; auto.
   Qed.
 
+  Definition pos_marks (ps : list bytes) : list Z := filter (fun x => (0 <? x)%Z) (marks ps).
+
   Lemma search_abs_found h cs1 c0a p0 c0b cs2 :
     let chunks := cs1 ++ (c0a ++ p0 :: c0b) :: cs2 in
-    StronglySorted Z.lt (marks (concat chunks)) -> mark p0 = Some h ->
+    (0 < h)%Z -> StronglySorted Z.lt (pos_marks (concat chunks)) -> mark p0 = Some h ->
     search_abs (length chunks) chunks h (-1) = SFound (frames (c0b ++ concat cs2)).
   Proof.
-    intros chunks S M.
+    intros chunks Hh S M.
     assert (E : concat chunks = (concat cs1 ++ c0a) ++ p0 :: (c0b ++ concat cs2)).
     { unfold chunks. rewrite concat_app. cbn. rewrite <- !app_assoc. reflexivity. }
-    rewrite E, marks_app in S. cbn [marks flat_map] in S. fold (marks (c0b ++ concat cs2)) in S. rewrite M in S.
-    cbn [app] in S. apply sorted_split in S. destruct S as [S1 S2].
-    assert (G : forall j last, j <= length cs2 -> (last = (-1)%Z \/ (h < last)%Z) ->
+    unfold pos_marks in S. rewrite E, marks_app in S. cbn [marks flat_map] in S.
+    fold (marks (c0b ++ concat cs2)) in S. rewrite M in S. cbn [app] in S.
+    rewrite filter_app in S. cbn [filter] in S.
+    assert (P : (0 <? h)%Z = true) by (apply Z.ltb_lt; exact Hh). rewrite P in S.
+    apply sorted_split in S. destruct S as [S1 S2].
+    assert (T1 : ~ In h (marks (concat cs1 ++ c0a))).
+    { intro Hin. assert (In h (filter (fun x => (0 <? x)%Z) (marks (concat cs1 ++ c0a)))) by (apply filter_In; auto).
+      apply S1 in H. lia. }
+    assert (T2 : forall x, In x (marks (c0b ++ concat cs2)) -> (x <= 0 \/ h < x)%Z).
+    { intros x Hx. destruct (Z.ltb_spec 0 x) as [Px|Px]; [|left; lia]. right. apply S2. apply filter_In. split; auto.
+      apply Z.ltb_lt. exact Px. }
+    assert (G : forall j last, j <= length cs2 -> (last <= 0 \/ h < last)%Z ->
                 search_abs (length cs1 + 1 + j) chunks h last = SFound (frames (c0b ++ concat cs2))).
     { induction j as [|j IH]; intros last Lj I.
       - replace (length cs1 + 1 + 0) with (S (length cs1)) by lia. cbn [search_abs].
         unfold chunks. rewrite skipn_app, Nat.sub_diag, skipn_all. cbn [app skipn concat].
         rewrite <- app_assoc. cbn [app]. rewrite scan_abs_found; auto.
-        intro Hin. assert (Hin' : In h (marks (concat cs1 ++ c0a))) by (rewrite marks_app; apply in_or_app; auto).
-        apply S1 in Hin'. lia.
+        intro Hin. apply T1. rewrite marks_app. apply in_or_app. auto.
       - replace (length cs1 + 1 + S j) with (S (length cs1 + 1 + j)) by lia. cbn [search_abs].
         assert (Sk : skipn (length cs1 + 1 + j) chunks = skipn j cs2).
         { unfold chunks. rewrite skipn_app. rewrite skipn_all2 by lia. cbn [app].
           replace (length cs1 + 1 + j - length cs1) with (S j) by lia. reflexivity. }
         rewrite Sk.
-        destruct (scan_abs_later h (concat (skipn j cs2)) last) as [l [El Il]]; auto.
-        { intros x Hx. apply S2. rewrite marks_app. apply in_or_app. right.
+        destruct (scan_abs_later h Hh (concat (skipn j cs2)) last) as [l [El Il]]; auto.
+        { intros x Hx. apply T2. rewrite marks_app. apply in_or_app. right.
           rewrite <- (firstn_skipn j cs2), concat_app, marks_app. apply in_or_app. auto. }
         rewrite El. apply IH; auto. lia. }
     replace (length chunks) with (length cs1 + 1 + length cs2).
-    - apply G; auto.
+    - apply G; auto. left. lia.
     - unfold chunks. rewrite app_length. cbn. lia.
   Qed.
 
-  (** For a flushed group whose files are whole-frame chunks of a valid log with strictly increasing
-      end-height markers: the search finds [h] iff it was written, and the reader it returns is
-      positioned exactly after the marker's frame. *)
+  (** non-positive heights (the restart marker 0, possibly repeated): the early exit never fires *)
+  Lemma scan_abs_present h : forall ps last, In h (marks ps) -> exists rest, scan_abs h ps last = ScFound rest.
+  Proof.
+    induction ps as [|p ps IH]; intros last I; [destruct I|]. cbn [scan_abs].
+    unfold marks in I. cbn [flat_map] in I. fold (marks ps) in I. destruct (mark p) as [x|].
+    - destruct (Z.eqb_spec x h); [eauto|]. apply IH. cbn in I. destruct I; [congruence|auto].
+    - apply IH. exact I.
+  Qed.
+
+  Lemma scan_abs_nostop h : (h <= 0)%Z -> forall ps last, scan_abs h ps last <> ScStop.
+  Proof.
+    intro Hh. induction ps as [|p ps IH]; intros last; cbn [scan_abs].
+    - destruct ((0 <? last) && (last <? h))%Z eqn:E; [|discriminate].
+      apply andb_true_iff in E. destruct E as [E1 E2]. apply Z.ltb_lt in E1, E2. lia.
+    - destruct (mark p) as [x|]; [destruct (x =? h)%Z; [discriminate|apply IH]|apply IH].
+  Qed.
+
+  Lemma search_abs_nonpos h chunks : (h <= 0)%Z -> In h (marks (concat chunks)) ->
+    forall k last, 1 <= k -> exists rest, search_abs k chunks h last = SFound rest.
+  Proof.
+    intros Hh I. induction k as [|k IH]; intros last K; [lia|]. cbn [search_abs].
+    destruct (in_dec Z.eq_dec h (marks (concat (skipn k chunks)))) as [P|A].
+    - destruct (scan_abs_present h _ last P) as [rest E]. rewrite E. eauto.
+    - destruct (scan_abs_absent h _ last A) as [E|[l E]].
+      + exfalso. eapply scan_abs_nostop; eauto.
+      + rewrite E. destruct k as [|k]; [exfalso; apply A; exact I|]. apply IH. lia.
+  Qed.
+
+  (** For a flushed group whose files are whole-frame chunks of a valid log in which the POSITIVE
+      end-height markers increase strictly (markers <= 0 — the [EndHeightMessage{0}] OnStart writes on
+      every empty head, so also after a rotation followed by a restart — may occur anywhere, any
+      number of times): a positive height is found iff it was written, and the reader returned is
+      positioned exactly after the marker's frame; a non-positive height is found iff written. *)
   Lemma search_iff g chunks h ign :
     disk_files g = map frames chunks -> Forall goodp (concat chunks) ->
-    StronglySorted Z.lt (marks (concat chunks)) ->
-    (forall pre p0 post, concat chunks = pre ++ p0 :: post -> mark p0 = Some h ->
+    StronglySorted Z.lt (pos_marks (concat chunks)) ->
+    (forall pre p0 post, (0 < h)%Z -> concat chunks = pre ++ p0 :: post -> mark p0 = Some h ->
        search g h ign = SFound (frames post)) /\
+    ((h <= 0)%Z -> In h (marks (concat chunks)) -> exists rest, search g h ign = SFound rest) /\
     (~ In h (marks (concat chunks)) -> search g h ign = SNotFound).
   Proof.
-    intros D G S. unfold Model.search. rewrite D, map_length. split.
-    - intros pre p0 post E M. rewrite search_loop_abs by exact G.
+    intros D G S. unfold Model.search. rewrite D, map_length. repeat split.
+    - intros pre p0 post Hh E M. rewrite search_loop_abs by exact G.
       destruct (concat_split chunks pre p0 post E) as [cs1 [c0a [c0b [cs2 [Q1 [Q2 Q3]]]]]].
       subst chunks post. apply search_abs_found; auto.
+    - intros Hh I. rewrite search_loop_abs by exact G. apply search_abs_nonpos; auto.
+      destruct chunks; [destruct I|cbn; lia].
     - intro N. rewrite search_loop_abs by exact G. apply search_abs_absent. exact N.
   Qed.
 
